@@ -28,9 +28,13 @@ CHECKS.update({
     text="CBMC decides that total_length after a step equals the previous total plus len (no wrap), that the padding length field is the 64-/128-bit encoding of total*8 for every 64-bit total below 2^61 (real hash_pad, all families incl. little-endian MD5), and that every job's block count stays inside the manager's precondition.",
     note=X_NOTE),
 })
+CHECKS["C17"] = dict(engine="cbmc-c+lift", design_ref="DESIGN.md 4/C17", technique="assembly lifted to C from the assembled object (asmsym/lift_c.py) + CBMC exploration of all interleavings of 2-4 threads through the real isal_self_tests()",
+    text="The 14-instruction status/claim/publish protocol of fips/asm_self_tests.asm is lifted from the freshly assembled object to C (one atomic statement per shared access, lock cmpxchg atomic) and linked with the real fips/self_tests.c; CBMC explores every interleaving of 2 and 3 threads (thorough: up to 4) making a first and a second call, for all pass/fail outcomes, and decides: each self-test group entered exactly once, no call returns before the verdict is published, all return values equal the published verdict, the status word never changes after publication, no thread keeps spinning after publication. A second harness decides that the real _sha_self_tests/_aes_self_tests stay in their documented return range.",
+    note="Bounds: threads <= 3 (4 thorough), spin iterations <= 2 by fairness assumption, sequentially consistent memory. Trusted: objdump's decoding, the lifter (scalar subset, aborts on anything else), CBMC.")
+ENGINES.append({"name": "asmsym-lift", "path": "asmsym/elfobj.py, asmsym/lift_c.py", "serves_properties": ["C13", "C17"], "kind_free_text": "ELF/objdump front end + scalar assembly-to-C lifter used to put the assembled protocol code under CBMC"})
 for e in ENGINES:
     if e["name"] == "cbmc-c":
-        e["serves_properties"] = ["C01", "C06", "C11", "C13", "C15", "C16"]
+        e["serves_properties"] = ["C01", "C06", "C11", "C13", "C15", "C16", "C17"]
         e["path"] += ", lib/ctxlayer.py"
 NOT_APPLICABLE = {p: "check under construction in this round (design in DESIGN.md section 4); not claimed until its command exists and passes on the unchanged tree" for p in
                   ["C01", "C02", "C03", "C04", "C05", "C06", "C07", "C08", "C09", "C10", "C11", "C12", "C14", "C15", "C17", "C18", "C19", "C20"]}
